@@ -57,8 +57,8 @@ type c03Scenario struct {
 }
 
 var (
-	c03Senders = []string{"s@example.com", "S@EXAMPLE.COM", "s@EXAMPLE.com", "s@xn--e1aybc.example", "", "s@other.example", "u@тест.example", "not an address", "@", "s@sub.example.com"}
-	c03Rcpts   = []string{"a@example.org", "b@example.org", "c@example.net", "d@example.net", "e@other.test", "A@EXAMPLE.ORG", "ü@example.org", "nodomain", "f@example.net"}
+	c03Senders  = []string{"s@example.com", "S@EXAMPLE.COM", "s@EXAMPLE.com", "s@xn--e1aybc.example", "", "s@other.example", "u@тест.example", "not an address", "@", "s@sub.example.com"}
+	c03Rcpts    = []string{"a@example.org", "b@example.org", "c@example.net", "d@example.net", "e@other.test", "A@EXAMPLE.ORG", "ü@example.org", "nodomain", "f@example.net"}
 	c03Payloads = []string{
 		"From: <s@example.com>\r\nSubject: hi\r\n\r\nbody line\r\n.leading dot\r\n",
 		"Subject: minimal\r\n\r\n",
@@ -307,8 +307,8 @@ type c03Tx struct {
 }
 
 type c03Result struct {
-	Txs       []*c03Tx
-	Replies   []c03Reply
+	Txs        []*c03Tx
+	Replies    []c03Reply
 	Log        []string
 	HarnessErr string
 	ClientIP   net.IP
@@ -349,7 +349,7 @@ func c03Play(sc c03Scenario, addr string, rec *verifx.Recorder) (res c03Result) 
 	var tx *c03Tx
 	pending := []c03Step{}
 	sentAt := []int{} // monitor log position when each pending command was sent
-	endAt := -1 // position of the command that ends the transaction, when known
+	endAt := -1       // position of the command that ends the transaction, when known
 	endTx := func(how string) {
 		if tx != nil {
 			tx.End = len(rec.Snapshot())
@@ -681,7 +681,11 @@ func c03Run(sc c03Scenario) (vs []ev.V) {
 			}
 		} else {
 			// what every delivery of the window did, per target
-			type took struct{ commitOK, body, bodyOK, partial bool; rcpts map[string]bool; statusErr map[string]bool }
+			type took struct {
+				commitOK, body, bodyOK, partial bool
+				rcpts                           map[string]bool
+				statusErr                       map[string]bool
+			}
 			byTgt := map[string]*took{}
 			anyBody, anyCommitErr := false, false
 			for _, e := range win {
